@@ -87,8 +87,8 @@ fn main() {
     }
     #[cfg(not(feature = "full"))]
     {
-        let _ = (ctx, rest);
-        eprintln!("built without feature `full`");
-        std::process::exit(2);
+        // Miri build: memory backend only, synthetic values, threads
+        let _ = rest;
+        std::process::exit(vstore::miri_main::run(&ctx));
     }
 }
